@@ -34,8 +34,10 @@ Definition proc_continue_tab := WC.
 Definition proc_continue_idx := WC.
 
 Definition switch_sub_depth : N := 18446744073709551615.   (* EmitSwitch: ScriptEmitter emitter(countManager, .., info): default maxDepth *)
+Definition switch_sub_in_counting_pass : bool := false.   (* is EmitSwitch's nested count also run when the manager only counts? *)
 Definition switch_sub_canbreak := FTrue.
 Definition switch_sub_cancontinue := FInherit.
+Definition catch_sub_in_counting_pass : bool := false.
 Definition catch_sub_canbreak := FInherit.
 Definition catch_sub_cancontinue := FInherit.
 Definition max_depth : N := 18446744073709551615.   (* size_t maxDepth = -1 *)
